@@ -328,6 +328,34 @@ func srvcorr(args []string) {
 		}
 		kcase(ks)
 	}
+	// Reader.Read cut short by a line limit (an ErrNonNil return of the isadv_returns table that IsADV does not
+	// dominate): every line limit on every fixture with an ADV batch and on a sample of the others
+	ncut := 0
+	for _, x := range achFx {
+		isADV := strings.Contains(strings.ToLower(x.name), "adv")
+		if !isADV && !r.Chance(1, 12) {
+			continue
+		}
+		lines := strings.Count(string(x.data), "\n") + 1
+		if lines > 40 {
+			lines = 40
+		}
+		for k := 1; k <= lines; k++ {
+			tc := testCase{File: fileCase{Kind: "readercut", Name: x.name, TextHex: hex.EncodeToString(x.data), Seed: uint64(k)},
+				Ops: []opCase{{Op: "serverValidate", Opts: allowMissing}, {Op: "validate"}, {Op: "writeBypass"}}}
+			fails, _, _ := checkCase(tc)
+			ncut++
+			for _, f := range fails {
+				perKey[f.Key]++
+				if perKey[f.Key] <= 2 {
+					b, _ := json.Marshal(f)
+					res.Printf("%s\n", b)
+				}
+			}
+		}
+	}
+	dist["reader-cut-short"] = ncut
+	requests += ncut + dist["constructions"]
 	sum := summary{Kind: "summary", Evaluations: requests, Distinct: len(distinct), Dist: dist, Samples: samples,
 		Rule: "validate requests (Service.ValidateFile, a third through the HTTP route GET/POST /files/{id}/validate) on stores of 1-3 real files, interleaved with library operations on the stored pointers; the projection of every stored file (batch headers / controls, stored ValidateOpts) after each request is compared with the extracted store model, a reflective deep dump of every stored file is compared around each request; distinct by (store, request history)"}
 	sum.Dist["requests-via-http"] = viaHTTP
